@@ -236,7 +236,7 @@ func (ex *Exec) bitop(op token.Token, x string, c *big.Int, t types.Type) (strin
 			return "0", true
 		}
 		// general non-negative constant: sum of bits
-		if c.Sign() > 0 && c.BitLen() <= 16 {
+		if c.Sign() > 0 && fewBits(c) {
 			var parts []string
 			for i := 0; i < c.BitLen(); i++ {
 				if c.Bit(i) == 1 {
@@ -252,7 +252,7 @@ func (ex *Exec) bitop(op token.Token, x string, c *big.Int, t types.Type) (strin
 		if c.Sign() == 0 {
 			return x, true
 		}
-		if c.Sign() > 0 && c.BitLen() <= 16 {
+		if c.Sign() > 0 && fewBits(c) {
 			// x | c = x + sum over set bits i of c where bit i of x is 0 of 2^i
 			var parts []string
 			parts = append(parts, x)
@@ -267,7 +267,7 @@ func (ex *Exec) bitop(op token.Token, x string, c *big.Int, t types.Type) (strin
 		if c.Sign() == 0 {
 			return x, true
 		}
-		if c.Sign() > 0 && c.BitLen() <= 16 {
+		if c.Sign() > 0 && fewBits(c) {
 			var parts []string
 			parts = append(parts, x)
 			for i := 0; i < c.BitLen(); i++ {
